@@ -124,6 +124,17 @@ def _old_exprs(src):
     return out
 
 
+def _snapshot(v):
+    """old(e) of a mutable container is its value at entry, not the (later mutated) object"""
+    if isinstance(v, PyList):
+        return PyList(list(v.items) if v.items is not None else None, v.length, v.arr, v.tag, v.codec)
+    if isinstance(v, PyDict):
+        return PyDict(dict(v.items))
+    if hasattr(v, 'pyvc_snapshot'):
+        return v.pyvc_snapshot()
+    return v
+
+
 class _OldFn(object):
     """`old(e)` inside a clause: looked up by source text of its argument."""
     def __init__(self, table):
@@ -181,7 +192,7 @@ class Contract(object):
         for src in self.olds:
             if src not in table:
                 try:
-                    table[src] = it.spec_eval(src, env)
+                    table[src] = _snapshot(it.spec_eval(src, env))
                 except EngineError as e:
                     table[src] = e        # undefined in this pre-state; an error only if the clause uses it
         env.vars['old'] = SpecFn('old', None)
@@ -670,7 +681,9 @@ class FunctionUnit(object):
             env_old = env.vars['__old__']
             pre_extra = {}
             if c.pre_state is not None:
-                c.pre_state(it, pre_extra)
+                tmp = dict(env.vars)
+                c.pre_state(it, tmp)
+                pre_extra = {k: v for k, v in tmp.items() if k not in env.vars}
                 ctx.ghost['spec_vars'] = dict(pre_extra)    # visible to loop invariants of the unit's body
             inputs = _input_objects(bound)
             snap = {id(o): (o, dict(o.fields)) for o in inputs}
